@@ -211,6 +211,31 @@ def run(ctx):
                     check_graph(ctx, g, d, kind, tmpdir, known)
                     if known is None:
                         graphs.append(g)
+            # correspondence: the Model's pipelines vs the code's, through the real text layer
+            from demes import load_dump as LD
+            reqs, meta = [], []
+            for g in graphs[:25]:
+                ga = enc(g.asdict())
+                for fmt in ("yaml", "json"):
+                    for simp in (True, False):
+                        text = demes.dumps(g, format=fmt, simplified=simp)
+                        parsed = json.loads(text) if fmt == "json" else LD._load_yaml_asdict(io.StringIO(text))
+                        reqs.append({"op": "dump_value", "graph": ga, "format": fmt, "simplified": simp}); meta.append(("dump", g, fmt, simp, parsed))
+                        reqs.append({"op": "load_value", "doc": enc(parsed)}); meta.append(("load", g, fmt, simp, text))
+            reps = ctx.driver.batch(reqs)
+            for (kind, g, fmt, simp, x), r in zip(meta, reps):
+                ctx.compared += 1
+                case = {"graph": show(canon(g.asdict())), "format": fmt, "simplified": simp}
+                if kind == "dump":
+                    if "ok" not in r or not canon_eq(canon(x), dec(r["ok"])):
+                        ctx.disagreement("dump_value", case, show(canon(x)), r)
+                else:
+                    try:
+                        back = canon(demes.loads(x, format=fmt).asdict())
+                    except Exception as e:  # noqa: BLE001
+                        back = ("err", type(e).__name__)
+                    if "ok" not in r or isinstance(back, tuple) or not canon_eq(back, dec(r["ok"])):
+                        ctx.disagreement("load_value", case, back if isinstance(back, tuple) else show(back), {k: v for k, v in r.items() if k != "ok"})
             # multi-document streams of 0..k graphs
             for k in (0, 1, 2, 3, 5 if ctx.tier == "quick" else 12):
                 gs = [ctx.rng.choice(graphs) for _ in range(k)] if graphs else []
